@@ -62,7 +62,7 @@ def run(rep, tier, seed, replay=None):
         rep.add_broken('build', 'harness', out[-1500:])
         return
     block_changed = [c for c in changed if c.startswith('gen_block:')]
-    n = 400 if tier == 'quick' else 6000
+    n = 1200 if tier == 'quick' else 8000
     if block_changed:
         n = max(n, 3000)
     rep.cov['fingerprints_changed_block'] = block_changed
@@ -167,7 +167,7 @@ def run(rep, tier, seed, replay=None):
         rc, out = vh(binp, ['c10', 'oracle-one', oseed, oidx], timeout=60)
         absorb(out, 'oracle case', lambda idx: {'ocase': [oseed, idx], 'cmd': 'vh c10 oracle-one %d %d' % (oseed, idx)})
     else:
-        budget = 60000 if tier == 'quick' else 1500000
+        budget = 300000 if tier == 'quick' else 3000000
         if rep.broken or block_changed:
             budget = max(budget, 400000)
         rc, out = vh(binp, ['c10', 'oracle', seed, budget], timeout=900)
